@@ -114,7 +114,11 @@ fn replay(cases: &str, outp: &str) {
                     }
                     let t2 = tab.clone();
                     let got = res_new(guarded(move || Path::new_with_replace(id, mp, &t2)), &back);
-                    if classes_only(&got) != classes_only(&expect_new(&c["newr"])) {
+                    // the exact result only for chain-free tables (C18 does not fix the application order of a
+                    // table whose replacement text is a later search text; C09 does); validity always
+                    let valid_ok = got["k"] != "ok" || (got["segs"].as_array().unwrap().len() == ss.len()
+                        && got["segs"].as_array().unwrap().iter().all(|s| Path::from_segments([st(&concretize(s, 0))]).is_ok()));
+                    if !valid_ok || (c["chainfree"] == true && classes_only(&got) != classes_only(&expect_new(&c["newr"]))) {
                         mism.push(format!("new_with_replace({id:?},{mp:?},{tab:?}) = {got} expected {}", c["newr"]));
                     }
                 }
